@@ -671,7 +671,7 @@ def replay_interp(info):
             rc, out, err = common.run_stylua(binp, src, ["--syntax", "luau"] + cfg)
             if rc != 0:
                 continue
-            if "{{" in out or not parses(binp, out, "luau"):
+            if "{{" in out or not parses(binp, out, "luau")[0]:
                 return f"interpolated string {src.strip()!r} is printed as {out.strip()!r}, which does not lex (`{{{{`)", {"source": src, "flags": ["--syntax", "luau"] + cfg, "output": out}
     return None, {}
 
@@ -697,6 +697,10 @@ def run(ses, rep):
     flagged += o8_interpolated_brace(ses, rep)
     # O2 through the C05 machinery (reduced)
     o2 = run_o2(ses, rep)
+    try:
+        run_o9(ses, rep)
+    except Inconclusive as e:
+        rep.add("assertion-before-less-than/encodable", "inconclusive", str(e)[:300], nontrivial=False)
     rep.samples.append({"flagged": [(f[0], f[1]) for f in flagged][:6]})
     seen = {}
     for oid, what, kind, info in flagged:
@@ -764,6 +768,101 @@ def run_o2(ses, rep):
     return bad
 
 
+def run_o9(ses, rep):
+    """O9 (Luau): `x :: T < y` does not parse (`<` after a type name opens generic arguments). On no layout path may the parentheses of a type
+    assertion be dropped when the assertion ends the left operand of `<`. Decided on the C05 composer (full feature set), trees of <= 3
+    operators with one type assertion; only THIS ill-formedness is asserted here (changed grouping that still parses is C05 / C02)."""
+    from ..exprmodel import ExprRules, Composer, Oracle, Node, ENCODED, BV
+    R = ExprRules(ses, "full")
+    for f in ENCODED:
+        R.extract(f)
+    O = Oracle(R)
+    if "LessThan" not in O.bops:
+        return
+    LT = BV(O.bops["LessThan"])
+    ta = lambda: Node("Par", [Node("TA", [Node("Leaf")])])
+    shapes_ = [lambda: Node("Bin", [ta(), Node("Leaf")]),
+               lambda: Node("Bin", [Node("Leaf"), Node("Bin", [ta(), Node("Leaf")])]),
+               lambda: Node("Bin", [Node("Bin", [Node("Leaf"), ta()]), Node("Leaf")]),
+               lambda: Node("Bin", [Node("Bin", [ta(), Node("Leaf")]), Node("Leaf")]),
+               lambda: Node("Bin", [Node("Un", [ta()]), Node("Leaf")]),
+               lambda: Node("Bin", [Node("Par", [Node("Un", [Node("TA", [Node("Leaf")])])]), Node("Leaf")]),
+               lambda: Node("Bin", [Node("Un", [Node("Bin", [Node("Leaf"), ta()])]), Node("Leaf")]),        # -a ^ (b :: T) < c
+               lambda: Node("Bin", [Node("Leaf"), Node("Bin", [Node("Bin", [Node("Leaf"), ta()]), Node("Leaf")])]),
+               lambda: Node("Bin", [Node("Bin", [Node("Leaf"), Node("Bin", [ta(), Node("Leaf")])]), Node("Leaf")])]
+
+    def ends_in_ta(t):
+        if t[0] == "TA":
+            return z3.BoolVal(True)
+        if t[0] == "Bin":
+            return ends_in_ta(t[3])
+        if t[0] == "Un":
+            return ends_in_ta(t[2])
+        return z3.BoolVal(False)
+
+    def unparseable(t):
+        if t[0] == "Bin":
+            return z3.Or(z3.And(t[1] == LT, ends_in_ta(t[2])), unparseable(t[2]), unparseable(t[3]))
+        if t[0] == "Un":
+            return unparseable(t[2])
+        if t[0] in ("Par", "TA"):
+            return unparseable(t[1])
+        return z3.BoolVal(False)
+    bad = 0
+    for mk in shapes_:
+        for entry in ("format_expression", "hang_expression"):
+            root = mk()
+            C = Composer(R, root)
+            try:
+                alts = C.eval(entry, root, "Standard")
+            except Inconclusive:
+                continue
+            tin = C.in_pt(root)
+            cons = O.valid_ops(root) + [O.wf(tin), z3.Not(unparseable(tin))]
+            oid = f"assertion-before-less-than/{entry}/{root.show()}"
+            if not alts or not ses.reachable(cons + [z3.Or([g for g, _ in alts])]):
+                continue
+            r, m = ses.obligation(oid, cons + [z3.Or([g for g, _ in alts])], z3.Or([z3.And(g, unparseable(t)) for g, t in alts]),
+                                  "no output alternative prints `:: T <`")
+            if r == "sat":
+                bad += 1
+                v, rec = replay_assertion_lt({})
+                if v:
+                    rep.add(oid, rep.violation({"obligation": "assertion-before-less-than"}, {"what": "a type assertion loses its parentheses in front of `<`", "observed": v,
+                                                                                          "kind": "assertion-lt", "info": {}, **rec}), v)
+                else:
+                    rep.add(oid, "inconclusive", f"solver model ({root.show()} through {entry}: `:: T <` in the output) did not reproduce on the native build")
+
+
+def replay_assertion_lt(info):
+    binp = common.native_build("full")
+    L = lambda c, n: c * n
+    progs = ["local v = (x :: number) < y\n", "local v = a and (b :: number) < c\n", "local v = -(x :: number) < y\n", "local v = (-x :: number) < y\n",
+             "local v = a + (b :: number) < c\n", "local v = (a :: number) < b and c\n", "local v = (a :: number) < b == c\n"]
+    for n in (1, 12, 30):
+        progs.append(f"local v = {L('a', n)}() and ({L('b', n)}() :: {('T' * min(n, 6))}) < {L('c', n)}\n")
+        progs.append(f"local v = {L('a', n)} and {L('d', n)} and ({L('b', n)} :: number) < {L('c', n)}\n")
+        progs.append(f"local v = {L('a', n)} or {L('d', n)}.field and -({L('b', n)} :: number) < {L('c', n)} or {L('e', n)}\n")
+        progs.append(f"if {L('a', n)} and ({L('b', n)}.x :: number) < {L('c', n)} then\n\tf()\nend\n")
+        progs.append(f"return {L('a', n)} and ({L('b', n)} :: number) < {L('c', n)}\n")
+        progs.append(f"f({L('a', n)} and ({L('b', n)} :: number) < {L('c', n)}, {L('e', n)})\n")
+    for n in (4, 16, 28, 40):      # the assertion is the right operand of an operator that binds tighter than the unary operator in front
+        progs += [f"local x = -{L('a', n)} ^ ({L('b', n + 9)} :: number) < {L('c', n + 14)}\n", f"return -{L('a', n)} ^ ({L('b', n + 9)} :: number) < {L('c', n + 14)}\n",
+                  f"local x = {L('d', n)} + -{L('a', n)} ^ ({L('b', n)} :: number) < {L('c', n)}\n"]
+    for n in (8, 14, 24, 40):      # a long chain whose LAST comparison is short (it fits on its own line once the chain hangs)
+        chain = f"{L('a', n)}.alt ~= nil and {L('d', n)}.mode ~= Mode.None and {L('e', n)}.duration ~= nil"
+        progs += [f"local v = {chain} and (x.start :: number) < 0\n", f"return {chain} and (x.start :: number) < now\n", f"if {chain} and (x.start :: number) < now then\n\tf()\nend\n",
+                  f"while {chain} or (rest :: number) < now do\n\tf()\nend\n", f"local v = {chain} and -(x.start :: number) < 0\n", f"call({chain} and (x.start :: number) < 0)\n"]
+    for src in progs:
+        for w in ("120", "60", "40", "20"):
+            rc, out, err = common.run_stylua(binp, src, ["--syntax", "luau", "--column-width", w])
+            if rc != 0:
+                continue
+            if not parses(binp, out, "luau")[0]:
+                return f"{src.strip()!r} at width {w} is printed as {out.strip()!r}, which does not parse", {"source": src, "flags": ["--syntax", "luau", "--column-width", w], "output": out}
+    return None, {}
+
+
 def replay_minus_minus(info):
     binp = common.native_build("default")
     for src in ("local y = -(-x)\n", "local y = - -x\n", "local y = -((-x)) + 1\n", "local t = { value = -((-offset)), other = 1 }\n", "return a * -(((-b))), 2\n", "local z = a - -b\n",
@@ -783,6 +882,7 @@ def replay_minus_minus(info):
 
 
 REPLAYS["minus-minus"] = replay_minus_minus
+REPLAYS["assertion-lt"] = replay_assertion_lt
 
 
 def replay(path):
